@@ -20,7 +20,7 @@ SERVER_CONSTS = {"MaxReqs": 0, "MaxHandles": 0, "FixFsetstat": True, "FixCheckFi
 
 def populate(root, rnd):
     os.makedirs(os.path.join(root, "d"), exist_ok=True)
-    sizes = {"a": rnd.choice([100000, 70000, 140001]), "b": rnd.choice([0, 10, 300]), "d/x": 5000}
+    sizes = {"a": rnd.choice([140001, 150000, 200000]), "b": rnd.choice([0, 10, 300]), "d/x": 5000}
     for n, sz in sizes.items():
         with open(os.path.join(root, n), "wb") as f:
             f.write(rnd.randbytes(sz))
@@ -190,8 +190,10 @@ def server_half(c):
     n = 3
     base = {"MaxReqs": n, "MaxHandles": 2, "FixFsetstat": True, "FixCheckFile": True}
     inv = ["ExactlyOne", "TypeAllowed", "NeverStops"]
-    r = c.mc_holds("SftpServerProto", cfg_text(constants=base, invariants=inv + ["Emit"]), name="server loop, repaired",
-                   workers=1)
+    c.mc_holds("SftpServerProto", cfg_text(constants=base, invariants=inv), name="server loop, repaired")
+    # one handle token is enough to reach every handle class (file / dir / stale / junk) in three requests
+    r = c.mc_holds("SftpServerProto", cfg_text(constants=dict(base, MaxHandles=1), invariants=inv + ["Emit"]),
+                   name="server loop, case generation", workers=1)
     cases = {tuple(x[1:4]) + (tuple(sorted(x[4])),) for x in r.printed("CASE")}
     if len(cases) < 40:
         raise Machinery("server model emitted only %d (kind, handle class) cases" % len(cases))
@@ -206,9 +208,11 @@ def server_half(c):
     # RP: every (kind, handle class, hard) case of the model, rendered a few ways each, in directed streams
     streams = []
     for ci, (kind, hclass, hard, allowed) in enumerate(sorted(cases)):
-        def build(gen, kind=kind, hclass=hclass, hard=hard):
-            return directed(gen, kind, hclass, hard)
-        streams.append(("model:%s/%s/%s" % (kind, hclass, hard), c.seed * 1000 + ci, build))
+        # a stream ends at its first unanswered request: the renderings of a "hard" check-file go in separate streams
+        for vs in ([(0,), (1,), (2,)] if hard else [(0, 1, 2)]):
+            def build(gen, kind=kind, hclass=hclass, hard=hard, vs=vs):
+                return directed(gen, kind, hclass, hard, vs)
+            streams.append(("model:%s/%s/%s/%s" % (kind, hclass, hard, "".join(map(str, vs))), c.seed * 1000 + ci, build))
     # TV: seeded random streams + one sweep over all 256 packet types
     nrand = 40 if c.quick else 400
     for i in range(nrand):
@@ -237,7 +241,7 @@ def server_half(c):
     return len(cases)
 
 
-def directed(gen, kind, hclass, hard):
+def directed(gen, kind, hclass, hard, variants=(0, 1, 2)):
     """a short stream that puts the server in the state of the model case and issues `kind` several ways"""
     r = gen.rnd
     gen.kindof = {}
@@ -252,7 +256,7 @@ def directed(gen, kind, hclass, hard):
             return want, issued[want - 1]
         return 0, b"hx77"
     out = list(pre)
-    for variant in range(3):
+    for variant in variants:
         q = {"id": gen.rid(), "kind": kind}
         if kind in drv.KIND_T and kind in ("close", "fstat", "readdir", "read", "write", "fsetstat"):
             q["hsel"] = hs
